@@ -818,8 +818,9 @@ theorem subtractFrom_terminates_aux : ∀ (d k : Nat) (s : List Rect) (hole : Re
 
 /-- **`tickit_rectset_subtract` terminates** on every array that has the invariant. -/
 theorem subtract_terminates {s : List Rect} {hole : Rect} (hs : InvS s) (hh : hole.Nonempty) :
-    ∃ N, ∀ fuel, N ≤ fuel → ∃ s', subtract fuel s hole = some s' :=
-  subtractFrom_terminates_aux _ _ s hole 0 rfl rfl hs hh (by intro j m hj; omega)
+    ∃ N, ∀ fuel, N ≤ fuel → ∃ s', subtract fuel s hole = some s' := by
+  obtain ⟨N, hN⟩ := subtractFrom_terminates_aux _ _ s hole 0 rfl rfl hs hh (by intro j m hj; omega)
+  exact ⟨N, fun fuel hf => by rw [subtract_of_nonempty fuel s hole hh]; exact hN fuel hf⟩
 
 end RectSet
 end Tickit
